@@ -510,6 +510,11 @@ class Interp:
             for n in k[1:]:
                 prod = prod * s.zvar(n)
             out.append(m == prod)
+        # square roots are fresh non-negative symbols during exploration: their defining equation belongs to the exact query too
+        for kind, v, args in s.fnapps:
+            if kind == "sqrt":
+                ve, xe = s.emit(v), s.emit(args[0])
+                out.append(ve * ve == xe)
         return out
 
     def check(s, *extra, timeout_ms=None):
